@@ -59,6 +59,8 @@ def shape_tag(sel, kind, refac):
     f = sel['flags']
     if refac != 'extract_function':
         return None
+    if f.get('contains_await'):
+        return 'selection_contains_await'
     if kind == 'perturbed':
         return 'selection_boundary_inside_a_token'
     if kind == 'cursor' and sel.get('is_stmt'):
